@@ -1,4 +1,5 @@
 fn main() {
+    println!("cargo::rustc-check-cfg=cfg(scnr_verif)");
     let default_enabled = std::env::var("CARGO_FEATURE_DEFAULT").is_ok();
     let regex_automata_enabled = std::env::var("CARGO_FEATURE_REGEX_AUTOMATA").is_ok();
 
